@@ -1281,6 +1281,153 @@ fn round_notime(seed: u64, tot: &Mutex<Tot>, prop: &str) {
 }
 
 // ---------------------------------------------------------------------------------------------
+// hogged: timed blocking calls whose caller is attached to a multi-thread runtime that cannot help them - every worker
+// is held synchronously by a handler (and a hog task) for longer than the timeout, or the runtime has no time driver.
+// "Given a timeout they return by the deadline even if the actor never responds or the mailbox stays full" (C17) must not
+// depend on the caller's runtime having free workers or timers.
+// ---------------------------------------------------------------------------------------------
+fn round_hogged(seed: u64, hb: &Heartbeat, tot: &Mutex<Tot>, prop: &str) {
+    let mut r = Rng::new(seed);
+    let no_time = r.chance(40);
+    let workers = 1 + r.below(2) as usize;
+    let mut b = tokio::runtime::Builder::new_multi_thread();
+    b.worker_threads(workers).max_blocking_threads(16);
+    if !no_time {
+        b.enable_time();
+    }
+    let rt = b.build().unwrap();
+    let sh = Shared::new(1, 1, false, false, seed);
+    let tell_variant = r.chance(40);
+    let cap = if tell_variant && !no_time { 1 } else { 4 };
+    let spec = ActorSpec { cap: Some(cap), start: HookScript::default(), run: vec![], stop: HookScript::default(), run_err_when_handled: None, in_peers: false };
+    let to_ms = if no_time { 3000 } else { 40 + r.below(40) };
+    let busy_us = (to_ms + 150) * 1000;
+    let erased = r.chance(30);
+    let from_async = no_time && workers == 2 && r.chance(30);
+    let via_enter = r.chance(30);
+    let bucket0 = hb.now_bucket();
+    let (a, jh) = {
+        let _g = rt.enter();
+        spawn_sa(&sh, 0, &spec)
+    };
+    sh.model_add(0, 1, "spawner");
+    let w = rt.spawn(watch(sh.clone(), 0, jh));
+    std::thread::sleep(Duration::from_millis(3));
+    if !no_time {
+        let (sh2, h) = (sh.clone(), H::D(a.clone()));
+        let busy_uid = uid();
+        rt.spawn(async move {
+            send_via(&sh2, Ctx::Client(1), 0, &h, SendKind::Tell, MTy::U, Body { uid: busy_uid, flags: 0, steps: vec![Step::Busy(busy_us)] }).await;
+        });
+        // wait until the slow handler has really been entered
+        let t0 = Instant::now();
+        while !sh.log.snapshot().iter().any(|e| matches!(&e.k, K::HEnter { uid, .. } if *uid == busy_uid)) && t0.elapsed() < Duration::from_millis(100) {
+            std::thread::sleep(Duration::from_micros(200));
+        }
+        if tell_variant {
+            // fill the single slot from this plain thread (the runtime's workers are about to be unavailable)
+            send_blocking(&sh, Ctx::Client(2), 0, &a, BKind::Tell, Body::plain(uid()));
+        }
+        if workers == 2 {
+            rt.spawn(async move {
+                std::thread::sleep(Duration::from_micros(busy_us));
+            });
+        }
+        std::thread::sleep(Duration::from_millis(4));
+    }
+    let kind = match (tell_variant, erased) {
+        (false, false) => BKind::AskTo(to_ms),
+        (false, true) => BKind::ErasedAsk(Some(to_ms)),
+        (true, false) => BKind::TellTo(to_ms),
+        (true, true) => BKind::ErasedTell(Some(to_ms)),
+    };
+    let (tx, rx) = std::sync::mpsc::channel();
+    let (sh2, a2) = (sh.clone(), a.clone());
+    let call = move || {
+        let r = std::panic::catch_unwind(std::panic::AssertUnwindSafe(|| send_blocking(&sh2, Ctx::Client(0), 0, &a2, kind, Body::plain(uid()))));
+        let _ = tx.send(r.map_err(|p| panic_payload_to_string(p.as_ref())));
+    };
+    let caller = if from_async {
+        rt.spawn(async move { call() });
+        "an async task"
+    } else if via_enter {
+        let h = rt.handle().clone();
+        std::thread::spawn(move || {
+            let _g = h.enter();
+            call()
+        });
+        "a thread holding Handle::enter()"
+    } else {
+        rt.spawn_blocking(call);
+        "a spawn_blocking thread"
+    };
+    let got = rx.recv_timeout(Duration::from_secs(15));
+    let stalled = hb.max_late_since(bucket0) > STALL_US;
+    let what = format!(
+        "{:?} from {caller} of a multi-thread runtime ({workers} worker(s), {})",
+        kind,
+        if no_time { "built without a time driver; the actor is idle".to_string() } else { format!("every worker held synchronously for {} ms by a handler; timeout {to_ms} ms", busy_us / 1000) }
+    );
+    let mut viol: Vec<(String, String)> = vec![];
+    match &got {
+        Err(_) => viol.push(("C17.deadline".into(), format!("[hogged] {what}: no result after 15 s"))),
+        Ok(Err(p)) => viol.push(("C17.no_panic".into(), format!("[hogged] {what}: the call panicked: {p}"))),
+        Ok(Ok((res, el))) => {
+            if no_time {
+                if !res.is_ok() {
+                    viol.push(("C17.same_rules".into(), format!("[hogged] {what}: returned {res:?} after {el:?} although the actor was alive and idle")));
+                }
+            } else {
+                let slack = Duration::from_millis(to_ms + 100);
+                if *el > slack && !stalled {
+                    viol.push(("C17.deadline".into(), format!("[hogged] {what}: returned {res:?} only after {el:?}")));
+                } else if !matches!(res, Res::Timeout) && !stalled {
+                    viol.push(("C17.deadline".into(), format!("[hogged] {what}: returned {res:?} after {el:?} although the outcome could not exist before the deadline")));
+                }
+            }
+        }
+    }
+    // teardown (bounded)
+    let h = H::D(a.clone());
+    kill_via(&sh, Ctx::Main, 0, &h);
+    drop(h);
+    drop(a);
+    sh.model_add(0, -1, "drop");
+    let (tx2, rx2) = std::sync::mpsc::channel();
+    rt.spawn(async move {
+        let _ = w.await;
+        let _ = tx2.send(());
+    });
+    let joined = rx2.recv_timeout(Duration::from_secs(10)).is_ok();
+    rt.shutdown_timeout(Duration::from_secs(2));
+    let ids = sh.ids.lock().unwrap().clone();
+    let out = RoundOut { log: sh.log.snapshot(), ids: ids.clone(), caps: vec![cap], hung_clients: 0, hung_actors: if joined { 0 } else { 1 }, stalled };
+    for id in ids.iter() {
+        reg_remove(*id);
+    }
+    {
+        let mut t = tot.lock().unwrap();
+        *t.obl.entry(if no_time { "C17.no_time_driver" } else { "C17.hogged_deadline" }).or_default() += 1;
+        *t.nontrivial.entry("C17".into()).or_default() += 1;
+        if stalled && !viol.is_empty() {
+            t.inconclusive.push(format!("hogged round {seed}: machine stalled, {} finding(s) dropped", viol.len()));
+        } else {
+            for (c, m) in viol {
+                if prop == "all" || prop == "C17" || prop == "C10" || prop == "C16" {
+                    t.viol.push((c, m, seed, "hogged".into()));
+                }
+            }
+        }
+    }
+    if got.is_ok() && joined {
+        let tainted = AtomicBool::new(false);
+        absorb(tot, prop, "hogged", seed, &out, &tainted);
+    } else {
+        tot.lock().unwrap().rounds += 1;
+    }
+}
+
+// ---------------------------------------------------------------------------------------------
 // abort: the actor's JoinHandle is resolved by `JoinHandle::abort()` while strong references exist.
 // Whatever made the handle resolve, "is_alive() is false once its JoinHandle has resolved, after which
 // every send fails" (C11) and "every ask still pending on it and every later ask returns an Err" (C03).
@@ -1994,6 +2141,16 @@ pub fn cmd_mt(a: &Args) -> i32 {
                     }
                 });
                 rt.shutdown_timeout(Duration::from_secs(2));
+            }
+            "hogged" => {
+                let mut n = 0u64;
+                while tp.elapsed() < per_profile {
+                    n += 1;
+                    round_hogged(mix(base, ((pi as u64) << 56) ^ n), &hb, &tot, &prop);
+                    if tot.lock().unwrap().viol.len() > 5 {
+                        break;
+                    }
+                }
             }
             "abort" => {
                 let mut n = 0u64;
